@@ -605,7 +605,7 @@ func (t *ZeroAllocTokenizer) processBlockTag(content string) {
 
 	case "for":
 		// Process for loop with iterator(s) and collection
-		inPos := indexASCIIFold(blockContent, " in ")
+		inPos := indexKeyword(blockContent, " in ")
 		if inPos != -1 {
 			iterators := strings.TrimSpace(blockContent[:inPos])
 			collection := strings.TrimSpace(blockContent[inPos+4:])
@@ -699,7 +699,7 @@ func (t *ZeroAllocTokenizer) processBlockTag(content string) {
 
 	case "include":
 		// Handle include with template path and optional context
-		withPos := indexASCIIFold(blockContent, " with ")
+		withPos := indexKeyword(blockContent, " with ")
 		if withPos != -1 {
 			templatePath := strings.TrimSpace(blockContent[:withPos])
 			contextExpr := strings.TrimSpace(blockContent[withPos+6:])
@@ -733,7 +733,7 @@ func (t *ZeroAllocTokenizer) processBlockTag(content string) {
 	case "from":
 		// Handle from tag which has a special format:
 		// {% from "template.twig" import macro1, macro2 as alias %}
-		importPos := indexASCIIFold(blockContent, " import ")
+		importPos := indexKeyword(blockContent, " import ")
 		if importPos != -1 {
 			// Extract template path and macros list
 			templatePath := strings.TrimSpace(blockContent[:importPos])
@@ -751,7 +751,7 @@ func (t *ZeroAllocTokenizer) processBlockTag(content string) {
 				macro = strings.TrimSpace(macro)
 
 				// Check for "as" alias
-				asPos := indexASCIIFold(macro, " as ")
+				asPos := indexKeyword(macro, " as ")
 				if asPos != -1 {
 					// Extract macro name and alias
 					macroName := strings.TrimSpace(macro[:asPos])
@@ -786,7 +786,7 @@ func (t *ZeroAllocTokenizer) processBlockTag(content string) {
 	case "import":
 		// Handle import tag which allows importing entire templates
 		// {% import "template.twig" as alias %}
-		asPos := indexASCIIFold(blockContent, " as ")
+		asPos := indexKeyword(blockContent, " as ")
 		if asPos != -1 {
 			// Extract template path and alias
 			templatePath := strings.TrimSpace(blockContent[:asPos])
@@ -856,6 +856,29 @@ func indexASCIIFold(s, keyword string) int {
 			}
 		}
 		if j == len(keyword) {
+			return i
+		}
+	}
+	return -1
+}
+
+// indexKeyword is indexASCIIFold restricted to the part of s that lies outside
+// quoted strings: the keyword of a tag is looked for in the tag, not in the
+// text of a template name or another string literal ('page with spaces')
+func indexKeyword(s, keyword string) int {
+	var quote byte
+	for i := 0; i < len(s); i++ {
+		c := s[i]
+		switch {
+		case quote != 0:
+			if c == '\\' && i+1 < len(s) {
+				i++
+			} else if c == quote {
+				quote = 0
+			}
+		case c == '\'' || c == '"':
+			quote = c
+		case isWhitespace(c) && i+len(keyword) <= len(s) && indexASCIIFold(s[i:i+len(keyword)], keyword) == 0:
 			return i
 		}
 	}
